@@ -8,6 +8,8 @@ import (
 	"strconv"
 	"strings"
 	"time"
+
+	"github.com/xujiajun/nutsdb"
 )
 
 // Res is the canonical observable result of one API call.
@@ -67,7 +69,31 @@ func (it kvItem) live() bool {
 	if it.TTL == 0 {
 		return true
 	}
-	return uint64(time.Now().Unix()) < it.TS+uint64(it.TTL)
+	return nowUnix() < it.TS+uint64(it.TTL)
+}
+
+// virtualClock, when non-zero, is the time the library's expiry test sees (build-tagged hook VerifSetClock);
+// timestamps stamped by Put and transaction ids keep using the wall clock.
+var virtualClock int64
+
+func setClock(sec int64) {
+	virtualClock = sec
+	nutsdb.VerifSetClock(sec)
+}
+
+func nowUnix() uint64 {
+	if virtualClock != 0 {
+		return uint64(virtualClock)
+	}
+	return uint64(time.Now().Unix())
+}
+
+// expiry returns the instant from which the item is no longer live (0: never).
+func (it kvItem) expiry() uint64 {
+	if it.TTL == 0 {
+		return 0
+	}
+	return it.TS + uint64(it.TTL)
 }
 
 type zItem struct {
